@@ -173,7 +173,11 @@ func (g *c05Gen) genGet(ctx context.Context, skipBatch bool) (hrpc.Call, c05Spec
 	from, to := uint64(0), uint64(math.MaxUint64)
 	if r.Intn(3) == 0 {
 		from, to = wideRange(r, uint64(r.Intn(100)), uint64(200+r.Intn(1000)))
-		opts = append(opts, hrpc.TimeRangeUint64(from, to))
+		if to < 1<<40 && r.Intn(2) == 0 { // the time.Time flavour of the same option
+			opts = append(opts, hrpc.TimeRange(time.UnixMilli(int64(from)), time.UnixMilli(int64(to))))
+		} else {
+			opts = append(opts, hrpc.TimeRangeUint64(from, to))
+		}
 	}
 	maxv := uint32(1)
 	if r.Intn(3) == 0 {
@@ -207,8 +211,13 @@ func (g *c05Gen) genGet(ctx context.Context, skipBatch bool) (hrpc.Call, c05Spec
 	}
 	cons := "default"
 	if r.Intn(5) == 0 {
-		opts = append(opts, hrpc.Consistency(hrpc.TimelineConsistency))
-		cons = "TIMELINE"
+		if r.Intn(2) == 0 {
+			opts = append(opts, hrpc.Consistency(hrpc.TimelineConsistency))
+			cons = "TIMELINE"
+		} else {
+			opts = append(opts, hrpc.Consistency(hrpc.StrongConsistency))
+			cons = "STRONG"
+		}
 	}
 	if skipBatch {
 		opts = append(opts, hrpc.SkipBatch())
@@ -320,7 +329,11 @@ func (g *c05Gen) genMutate(ctx context.Context, skipBatch bool) (hrpc.Call, c05S
 	}
 	var opts []func(hrpc.Call) error
 	if hasTS {
-		opts = append(opts, hrpc.TimestampUint64(tsv))
+		if tsv > 0 && tsv < 1<<40 && r.Intn(2) == 0 { // the time.Time flavour of the same option
+			opts = append(opts, hrpc.Timestamp(time.UnixMilli(int64(tsv))))
+		} else {
+			opts = append(opts, hrpc.TimestampUint64(tsv))
+		}
 	}
 	dur := 0
 	if r.Intn(3) == 0 {
@@ -425,7 +438,11 @@ func (g *c05Gen) genScan(ctx context.Context) (*hrpc.Scan, c05Spec) {
 	from, to := uint64(0), uint64(math.MaxUint64)
 	if r.Intn(3) == 0 {
 		from, to = wideRange(r, uint64(r.Intn(50)), uint64(100+r.Intn(50)))
-		opts = append(opts, hrpc.TimeRangeUint64(from, to))
+		if to < 1<<40 && r.Intn(2) == 0 { // the time.Time flavour of the same option
+			opts = append(opts, hrpc.TimeRange(time.UnixMilli(int64(from)), time.UnixMilli(int64(to))))
+		} else {
+			opts = append(opts, hrpc.TimeRangeUint64(from, to))
+		}
 	}
 	maxv := uint32(1)
 	if r.Intn(3) == 0 {
